@@ -218,10 +218,12 @@ do_gcmi(const cmd *c)
 {
         int sid = (int) cmd_i(c, 1);
         struct gstream *s = &gs[sid];
+        int keep = s->used && obj_reuse(); /* a new session on the context of the previous one, re-initialised in place */
         if (s->used) {
                 gbuf_free(&s->kd);
                 gbuf_free(&s->key);
-                gbuf_free(&s->ctx);
+                if (!keep)
+                        gbuf_free(&s->ctx);
         }
         s->used = 1;
         snprintf(s->fam, sizeof s->fam, "%s", c->t[2]);
@@ -231,8 +233,10 @@ do_gcmi(const cmd *c)
         obs o;
         uint64_t prc;
         gcm_make_key(s->fam, s->bits, &s->kd, &s->key, kb, ko, NULL, &prc);
-        gbuf_alloc_obj(&s->ctx, sizeof(struct isal_gcm_context_data), (unsigned) _Alignof(struct isal_gcm_context_data));
-        hidden_fill(s->ctx.p, s->ctx.len, 35);
+        if (!keep) {
+                gbuf_alloc_obj(&s->ctx, sizeof(struct isal_gcm_context_data), (unsigned) _Alignof(struct isal_gcm_context_data));
+                hidden_fill(s->ctx.p, s->ctx.len, 35);
+        }
         gbuf aad, iv;
         pbuf(&aad, ab, ao, alen, c->t[11]);
         pbuf(&iv, ib, io, 12, c->t[12]);
@@ -360,6 +364,16 @@ do_kexp(const cmd *c)
         if (precomp) {
                 gbuf_alloc_obj(&blk, sizeof(struct isal_cbc_key_data), 16);
                 hidden_fill(blk.p, blk.len, 47);
+                if (bits < 256 && obj_reuse()) {
+                        /* re-keying a live key object: it first holds the schedules of a 256-bit key of which the new, shorter
+                         * key is a prefix */
+                        static __thread uint8_t k256[32];
+                        obs o2;
+                        pat_fill(k256, kb, ko, 32);
+                        uint64_t a0[3] = { (uint64_t) k256, 32, (uint64_t) blk.p };
+                        vc_begin();
+                        vcall(need("aes_cbc_precomp"), 3, a0, &o2);
+                }
                 uint64_t a[3] = { (uint64_t) key.p, (uint64_t) (bits / 8), (uint64_t) blk.p }; /* key_size in bytes (ISAL_CBC_128_BITS = 16) */
                 vc_begin();
                 vc_input("key", &key);
